@@ -126,78 +126,7 @@ def eval_remove_replica(f, ns_byte=7, has_succ=True):
         return "UNSUPPORTED-FORM: %s" % e, log
 
 
-def _split_top(sx):
-    out, depth, cur = [], 0, ""
-    for ch in sx:
-        if ch in "([":
-            depth += 1
-        if ch in ")]":
-            depth -= 1
-        if ch == "," and depth == 0:
-            out.append(cur)
-            cur = ""
-        else:
-            cur += ch
-    if cur:
-        out.append(cur)
-    return out
-
-
-def _comp(c):
-    """a rendered key component as bytes"""
-    import re as _re
-    c = c.strip()
-    if c == "empty":
-        return b""
-    if c.startswith("id:"):
-        return bytes.fromhex(c[3:])
-    m = _re.fullmatch(r"\[(\d+); _\]", c)
-    if m:
-        return bytes([int(m.group(1))]) * 32
-    raise ValueError("component %r" % c)
-
-
-def _tuple(tx):
-    tx = tx.strip()
-    if tx.startswith("(") and tx.endswith(")"):
-        return tuple(_comp(c) for c in _split_top(tx[1:-1]))
-    return (_comp(tx),)
-
-
-def _range(rendered):
-    """(lower, upper) with each bound (kind, key tuple) from the rendering of a bounds value: a pair of std Bounds, or a
-    RangeInclusive / Range built with new() or as a struct"""
-    import re as _re
-    r = rendered.strip()
-    inner = r[r.index("(") + 1:-1] if "(" in r else r
-    parts = _split_top(inner)
-    head = r[:r.index("(")] if "(" in r else ""
-    if len(parts) == 2 and any(p.strip().startswith(("Included(", "Excluded(", "Unbounded")) for p in parts):
-        def bound(px):
-            px = px.strip()
-            if px == "Unbounded":
-                return ("unbounded", None)
-            k = px[:px.index("(")]
-            return ({"Included": "incl", "Excluded": "excl"}[k], _tuple(px[px.index("(") + 1:-1]))
-        return bound(parts[0]), bound(parts[1])
-    if len(parts) == 2 and head in ("new", "RangeInclusive"):
-        return ("incl", _tuple(parts[0])), ("incl", _tuple(parts[1]))
-    if len(parts) == 2 and head == "Range":
-        return ("incl", _tuple(parts[0])), ("excl", _tuple(parts[1]))
-    raise ValueError("range %r" % rendered)
-
-
-def _inside(key, rng):
-    (lk, lo), (uk, up) = rng
-    if lk == "incl" and key < lo:
-        return False
-    if lk == "excl" and key <= lo:
-        return False
-    if uk == "incl" and key > up:
-        return False
-    if uk == "excl" and key >= up:
-        return False
-    return True
+from .keyrange import bounds as _range, inside as _inside   # noqa: E402
 
 
 def removal_ranges(ctx):
